@@ -11,9 +11,14 @@ core Lean) — the Rust code computes them in `f64` and casts back with `N::from
 tie compares with tolerance where the statement says "constant", exactly where it says "begin at"/"end at").
 `powf` is abstract (`PowOps`): `geomspace`/`logspace` are modelled over any scalar domain with `mul div powf`.
 
-Two arms differ from the pinned tree (both are repairs, see `/verif/fixes/C16-*.diff`):
-* `apply_triangular` on rank < 2 : pinned `self.shape.len() - 2` underflows (panic); repaired: `UnsupportedDimension`.
-* `apply_triangular` on a matrix with a zero-length side: pinned `chunks(0)` panics; repaired `chunks(chunk_size.max(1))`.
+The model mirrors the tree after these `fix:` commits of /repo:
+* 1199bc3 `apply_triangular` on rank < 2 : `is_dim_unsupported(&[0, 1])?` (was: usize underflow panic)
+* 158e6f6 `apply_triangular` on a matrix with a zero-length side: `chunks(chunk_size.max(1))` (was: `chunks(0)` panic)
+* 315b49d `arange` with step 0: `Err(ParameterError)` (was: capacity-overflow panic)
+* 5a75905 `linspace/logspace/geomspace`: `num.saturating_sub(delta)` (was: `num - delta` underflow panic for num = 0)
+* 83f86c3 `tri/tril/triu`: `i.saturating_add(k)`; `diag_1d`: checked side `size + |k|` and `side * side`
+  (`Err(OutOfBounds)`); `diag_2d`: `k.unsigned_abs()`.
+Machine integers appear only where the code now names them: `isizeMin/isizeMax` in `satAdd`, `usizeMax` in `diag1d`.
 -/
 
 namespace ArrModel.C16
@@ -37,6 +42,15 @@ def onesLike (other : Arr Int) : Res (Arr Int) := Arr.new (List.replicate other.
 def rand (draw : Nat → α) (shape : List Nat) : Res (Arr α) :=
   Arr.new ((List.range shape.prod).map draw) shape
 
+/-! ## machine-integer helpers (64-bit target) -/
+
+def isizeMax : Int := 9223372036854775807
+def isizeMin : Int := -9223372036854775808
+def usizeMax : Nat := 18446744073709551615
+
+/-- `isize::saturating_add` -/
+def satAdd (a b : Int) : Int := max isizeMin (min isizeMax (a + b))
+
 /-! ## identity-like (`create.rs:396-419`, `570-581`) -/
 
 /-- `eye(n, m, k)` — note `k : Option<usize>`: only diagonals on or above the main one can be requested. -/
@@ -52,12 +66,12 @@ def eye (n : Nat) (m : Option Nat) (k : Option Nat) : Res (Arr Int) :=
 def identity (n : Nat) : Res (Arr Int) :=
   Arr.new ((List.range (n * n)).map fun i => if i % (n + 1) = 0 then (1 : Int) else 0) [n, n]
 
-/-- `tri(n, m, k)`: `(0..n).flat_map(|i| (0..m).map(|j| if j as isize <= i as isize + k {1} else {0}))` -/
+/-- `tri(n, m, k)`: `(0..n).flat_map(|i| (0..m).map(|j| if j as isize <= (i as isize).saturating_add(k) {1} else {0}))` -/
 def tri (n : Nat) (m : Option Nat) (k : Option Int) : Res (Arr Int) :=
   let m := m.getD n
   let k := k.getD 0
   Arr.new ((List.range n).flatMap fun (i : Nat) => (List.range m).map fun (j : Nat) =>
-      if (j : Int) ≤ (i : Int) + k then (1 : Int) else 0) [n, m]
+      if (j : Int) ≤ satAdd (i : Int) k then (1 : Int) else 0) [n, m]
 
 /-! ## triangular masks (`create_from.rs:206-214`, `232-256`) -/
 
@@ -72,13 +86,13 @@ def chunks (n : Nat) (l : List α) : Res (List (List α)) :=
 
 /-- `apply_triangular(k, compare)`; `compare(j, i, k)` true ⇒ the entry is zeroed -/
 def applyTriangular (a : Arr Int) (k : Int) (compare : Int → Int → Int → Bool) : Res (Arr Int) :=
-  -- repaired arm (pinned tree: usize underflow of `len() - 2` ⇒ panic)
+  -- `self.is_dim_unsupported(&[0, 1])?`
   if a.shape.length < 2 then .err .UnsupportedDimension
   else
     let last := a.shape.getD (a.shape.length - 1) 0
     let secondLast := a.shape.getD (a.shape.length - 2) 0
     let chunkSize := last * secondLast
-    -- repaired: `chunks(chunk_size.max(1))` (pinned tree: `chunks(0)` panics for empty matrices)
+    -- `chunks(chunk_size.max(1))`
     match chunks (max chunkSize 1) a.elems with
     | .ok cs =>
       Arr.new (cs.flatMap fun chunk => chunk.mapIdx fun idx value =>
@@ -88,36 +102,39 @@ def applyTriangular (a : Arr Int) (k : Int) (compare : Int → Int → Int → B
     | .err e => .err e
     | .panic => .panic
 
-/-- `tril(k)`: zero where `j > i + k` -/
+/-- `tril(k)`: zero where `j > i.saturating_add(k)` -/
 def tril (a : Arr Int) (k : Option Int) : Res (Arr Int) :=
-  applyTriangular a (k.getD 0) (fun j i k => decide (j > i + k))
+  applyTriangular a (k.getD 0) (fun j i k => decide (j > satAdd i k))
 
-/-- `triu(k)`: zero where `j < i + k` -/
+/-- `triu(k)`: zero where `j < i.saturating_add(k)` -/
 def triu (a : Arr Int) (k : Option Int) : Res (Arr Int) :=
-  applyTriangular a (k.getD 0) (fun j i k => decide (j < i + k))
+  applyTriangular a (k.getD 0) (fun j i k => decide (j < satAdd i k))
 
 /-! ## diag / diagflat (`create_from.rs:152-204`) -/
 
-/-- `diag_1d`: vector → square matrix of side `size + |k|` -/
+/-- `diag_1d`: vector → square matrix of side `size + |k|`;
+`size.checked_add(abs_k).filter(|s| s.checked_mul(*s).is_some()).ok_or(OutOfBounds)?` -/
 def diag1d (data : Arr Int) (k : Int) : Res (Arr Int) := do
   let size ← Res.idx data.shape 0
   let absK := k.natAbs
   let n := size + absK
-  let elements ← Res.mapM' (fun idx =>
-      let i := idx / n
-      let j := idx % n
-      if k ≥ 0 ∧ j = i + k.toNat then
-        (if i < size then Res.idx data.elems i else .ok (0 : Int))
-      else if k < 0 ∧ i = j + absK then
-        (if j < size then Res.idx data.elems j else .ok 0)
-      else .ok 0) (List.range (n * n))
-  Arr.new elements [n, n]
+  if n > usizeMax ∨ n * n > usizeMax then .err .OutOfBounds
+  else
+    let elements ← Res.mapM' (fun idx =>
+        let i := idx / n
+        let j := idx % n
+        if k ≥ 0 ∧ j = i + k.toNat then
+          (if i < size then Res.idx data.elems i else .ok (0 : Int))
+        else if k < 0 ∧ i = j + absK then
+          (if j < size then Res.idx data.elems j else .ok 0)
+        else .ok 0) (List.range (n * n))
+    Arr.new elements [n, n]
 
 /-- `diag_2d`: matrix → its k-th diagonal, `(start_row..rows).zip(start_col..cols)` -/
 def diag2d (data : Arr Int) (k : Int) : Res (Arr Int) := do
   let rows ← Res.idx data.shape 0
   let cols ← Res.idx data.shape 1
-  let start : Nat × Nat := if k ≥ 0 then (0, k.toNat) else ((-k).toNat, 0)
+  let start : Nat × Nat := if k ≥ 0 then (0, k.toNat) else (k.natAbs, 0)
   let pairs := (List.range' start.1 (rows - start.1)).zip (List.range' start.2 (cols - start.2))
   let elements ← Res.mapM' (fun (p : Nat × Nat) => Res.idx data.elems (p.1 * cols + p.2)) pairs
   Arr.new elements [elements.length]
@@ -155,31 +172,23 @@ def arangeLoop (step : Rat) : Nat → Rat → List Rat
   | 0, _ => []
   | n + 1, value => value :: arangeLoop step n (value + step)
 
-/-- `arange(start, stop, step)`: `size = ((stop + 1 - start) / step) as usize` (truncation, negatives and NaN
-saturate to 0, `+inf` to `usize::MAX` whose `Vec::with_capacity` panics with "capacity overflow"). -/
+/-- `arange(start, stop, step)`: a zero step is refused; `size = ((stop + 1 - start) / step) as usize`
+(truncation toward zero, negatives saturate to 0). -/
 def arange (start stop : Rat) (step : Option Rat) : Res (Arr Rat) :=
   let step := step.getD 1
-  if step = 0 then
-    (if stop + 1 - start > 0 then .panic else .ok (Arr.flat []))
+  if step = 0 then .err .ParameterError
   else
     let size := ((stop + 1 - start) / step).floor.toNat
     .ok (Arr.flat (arangeLoop step size start))
 
-/-- `num - delta` on `usize` (overflow checks on: underflow panics) -/
-def usizeSub (a b : Nat) : Res Nat := if a < b then .panic else .ok (a - b)
-
-/-- `linspace(start, stop, num, endpoint)` -/
+/-- `linspace(start, stop, num, endpoint)`; `num.saturating_sub(delta)` is truncated subtraction on `Nat` -/
 def linspace (start stop : Rat) (num : Option Nat) (endpoint : Option Bool) : Res (Arr Rat) :=
   let num := num.getD 50
   let endpoint := endpoint.getD true
   let delta := if endpoint then 1 else 0
-  match usizeSub num delta with
-  | .ok d =>
-    let step := (stop - start) / (d : Rat)
-    .ok (Arr.flat ((List.range num).map fun i =>
-      if endpoint ∧ i = num - 1 then stop else (i : Rat) * step + start))
-  | .err e => .err e
-  | .panic => .panic
+  let step := (stop - start) / ((num - delta : Nat) : Rat)
+  .ok (Arr.flat ((List.range num).map fun i =>
+    if endpoint ∧ i = num - 1 then stop else (i : Rat) * step + start))
 
 /-- the float kernels used by `geomspace` / `logspace`, abstract -/
 structure PowOps (R : Type) where
@@ -197,13 +206,9 @@ def geomspace {R : Type} (P : PowOps R) (isZero : R → Bool) (start stop : R)
     let num := num.getD 50
     let endpoint := endpoint.getD true
     let delta := if endpoint then 1 else 0
-    match usizeSub num delta with
-    | .ok d =>
-      let ratio := P.powf (P.div stop start) (1 / (d : Rat))
-      .ok ((List.range num).map fun i =>
-        if endpoint ∧ i = num - 1 then stop else P.mul start (P.powf ratio (i : Rat)))
-    | .err e => .err e
-    | .panic => .panic
+    let ratio := P.powf (P.div stop start) (1 / ((num - delta : Nat) : Rat))
+    .ok ((List.range num).map fun i =>
+      if endpoint ∧ i = num - 1 then stop else P.mul start (P.powf ratio (i : Rat)))
 
 /-- `logspace(start, stop, num, endpoint, base)`; `base` already converted (`base.unwrap_or(10).to_f64()`) -/
 def logspace {R : Type} (P : PowOps R) (base : R) (start stop : Rat)
@@ -211,15 +216,11 @@ def logspace {R : Type} (P : PowOps R) (base : R) (start stop : Rat)
   let num := num.getD 50
   let endpoint := endpoint.getD true
   let delta := if endpoint then 1 else 0
-  match usizeSub num delta with
-  | .ok d =>
-    let logStart := P.powf base start
-    let logStop := P.powf base stop
-    let logStep := P.powf (P.div logStop logStart) (1 / (d : Rat))
-    .ok ((List.range num).map fun i =>
-      if endpoint ∧ i = num - 1 then logStop else P.mul logStart (P.powf logStep (i : Rat)))
-  | .err e => .err e
-  | .panic => .panic
+  let logStart := P.powf base start
+  let logStop := P.powf base stop
+  let logStep := P.powf (P.div logStop logStart) (1 / ((num - delta : Nat) : Rat))
+  .ok ((List.range num).map fun i =>
+    if endpoint ∧ i = num - 1 then logStop else P.mul logStart (P.powf logStep (i : Rat)))
 
 /-! ## the `array_*!` constructor macros (`src/macros/*.rs`) — thin wrappers -/
 
